@@ -48,3 +48,46 @@ pub fn replay_file(path: &str) -> Result<(), String> {
     crate::drv::cleanup_scratch();
     Ok(())
 }
+
+/// Re-execute the history of a violation record in a fresh scratch directory and return what was observed
+/// (one line per event). Used by `Report::finish` to replay every new violation twice before it is reported.
+pub fn observe(v: &Value, tag: &str) -> Vec<String> {
+    let mut out = vec![];
+    let mut opts = Opts::from_json(&v["opts"]);
+    opts.xdg = scratch_xdg(tag);
+    clear_user_files(&opts);
+    if let Some(files) = v["files"].as_object() {
+        for (name, content) in files {
+            let _ = std::fs::write(opts.user_dir().join(name), content.as_str().unwrap_or(""));
+        }
+    }
+    let mut ctx = match Ctx::new(&opts) {
+        Ok(c) => c,
+        Err(p) => {
+            out.push(format!("new_with_config PANIC: {}", p.short()));
+            return out;
+        }
+    };
+    if let Some(o) = v.get("origin").filter(|o| o.is_object()) {
+        ctx.set_fixed(o["buffer"].as_str().unwrap_or(""), o["typed"].as_str().unwrap_or(""), o["pending_kar"].as_u64().unwrap_or(0) as u8);
+    }
+    for e in v["events"].as_array().cloned().unwrap_or_default() {
+        let Some(mut ev) = Ev::from_json(&e) else {
+            out.push("bad event".into());
+            break;
+        };
+        if let Ev::Update(o) = &mut ev {
+            o.xdg = opts.xdg.clone();
+        }
+        match ctx.apply(&ev) {
+            Ok(Out::Sugg(r)) => out.push(format!("{} -> {} ongoing={}", ev.short(), r.to_json(), ctx.ongoing())),
+            Ok(Out::Unit) => out.push(format!("{} -> () ongoing={}", ev.short(), ctx.ongoing())),
+            Err(crate::drv::Fail::Slow(_)) => out.push(format!("{} -> slow", ev.short())),
+            Err(f) => {
+                out.push(format!("{} -> FAIL {:?}", ev.short(), f));
+                break;
+            }
+        }
+    }
+    out
+}
